@@ -60,6 +60,7 @@ pub(crate) mod verif_mpmc {
         let mut r0 = ManuallyDrop::new(ch.receive());
         let mut r1 = ManuallyDrop::new(ch.receive());
         let mut st1 = ManuallyDrop::new(ch.stream());
+        if (p & P18) != 0 { arm_alloc(); }
         let mut next_tag: u8 = 3;
         // ---- reference model ----
         let mut closed = false;
@@ -363,6 +364,7 @@ pub(crate) mod verif_mpmc {
                 s.assume(false); // operation kind not in this harness's alphabet
             }
 
+            oracle!(p, P18, alloc_events() == 0, "C18 mpmc: an operation allocated or freed heap memory");
             // ================= oracles after every operation =================
             let now = [
                 if lw[0] == 0 { cs0a.n() } else { cs0b.n() }, if lw[1] == 0 { cs1a.n() } else { cs1b.n() },
@@ -734,6 +736,37 @@ pub(crate) mod verif_mpmc {
     #[cfg(kani)]
     mod proofs {
         use super::*;
+        #[kani::proof]
+        #[kani::unwind(4)]
+        fn repoll_panics_send() {
+            let ch = GenericChannel::<NoopLock, Tag, ArrayBuf<Tag, [Tag; 1]>>::new();
+            repoll_after_ready(ch.send(Tag(1)));
+        }
+        #[kani::proof]
+        #[kani::unwind(4)]
+        fn repoll_panics_receive() {
+            let ch = GenericChannel::<NoopLock, Tag, ArrayBuf<Tag, [Tag; 1]>>::new();
+            core::mem::forget(ch.try_send(Tag(1)));
+            repoll_after_ready(ch.receive());
+        }
+        #[kani::proof]
+        #[kani::unwind(6)]
+        #[kani::stub(alloc::alloc::alloc, crate::verif::common::stub_alloc)]
+        #[kani::stub(alloc::alloc::dealloc, crate::verif::common::stub_dealloc)]
+        #[kani::stub(alloc::alloc::realloc, crate::verif::common::stub_realloc)]
+        fn hist_c18_c1_sr_p5_n5() { let _ = hist::<NoopLock, ArrayBuf<Tag, [Tag; 1]>, _>(&mut KaniSrc, 1 | (5 << 4) | ((OP_SEND | OP_RECV | OP_DROP_S | OP_DROP_R) << 12), 1, 5, P18); }
+        #[kani::proof]
+        #[kani::unwind(6)]
+        #[kani::stub(alloc::alloc::alloc, crate::verif::common::stub_alloc)]
+        #[kani::stub(alloc::alloc::dealloc, crate::verif::common::stub_dealloc)]
+        #[kani::stub(alloc::alloc::realloc, crate::verif::common::stub_realloc)]
+        fn hist_c18_c0_cl_p3_n5() { let _ = hist::<NoopLock, ArrayBuf<Tag, [Tag; 0]>, _>(&mut KaniSrc, 0 | (3 << 4) | ((OP_SEND | OP_RECV | OP_CLOSE | OP_DROP_R) << 12), 0, 5, P18); }
+        #[kani::proof]
+        #[kani::unwind(5)]
+        #[kani::stub(alloc::alloc::alloc, crate::verif::common::stub_alloc)]
+        #[kani::stub(alloc::alloc::dealloc, crate::verif::common::stub_dealloc)]
+        #[kani::stub(alloc::alloc::realloc, crate::verif::common::stub_realloc)]
+        fn hist_c18_c2_tr_p0_n4() { let _ = hist::<NoopLock, ArrayBuf<Tag, [Tag; 2]>, _>(&mut KaniSrc, 2 | ((OP_SEND | OP_RECV | OP_TRY_SEND | OP_TRY_RECV) << 12), 2, 4, P18); }
         type B0 = ArrayBuf<Tag, [Tag; 0]>;
         type B1 = ArrayBuf<Tag, [Tag; 1]>;
         type B2 = ArrayBuf<Tag, [Tag; 2]>;
